@@ -495,6 +495,79 @@ fn stream_unsat(rep: &mut Report, drv: &mut Driver, rng: &mut Rng, n: usize) -> 
     Ok(())
 }
 
+
+/// siblings that involve a clip path: the clipped element's box, as seen by elements that refer to it,
+/// is the intersection with the clipPath's content - wherever the clipPath is written
+fn stream_clip(rep: &mut Report, drv: &mut Driver, rng: &mut Rng, n: usize) -> Result<(), String> {
+    let mut corr = Stream::new(
+        "doc/clip-order",
+        "correspondence",
+        "3-5 siblings: a <clipPath> with a rect, an element clipped by it (rect or a group), elements placed relative to the clipped element and to each other, in a random order: implementation vs model",
+    );
+    let mut orc = Stream::new(
+        "oracle/clip-permutation",
+        "oracle",
+        "the same siblings in all n! orders: every element's output attributes keyed by id are the same in every order; when the clip region misses the element (no box left) every order fails alike",
+    );
+    let lim = Limits::default();
+    for _ in 0..n {
+        let h = |rng: &mut Rng, lo: i64, hi: i64| fstr_ref(rng.range(lo, hi) as f64 / 2.0);
+        let mut sib: Vec<X> = vec![];
+        sib.push(X::node("clipPath", &[("id", "cp")], vec![X::leaf("rect", &[("xy", &format!("{} {}", h(rng, 0, 20), h(rng, 0, 20))), ("wh", &format!("{} {}", 2 + rng.below(10), 2 + rng.below(10)))])]));
+        let (tx, ty, tw, th) = (h(rng, -10, 20), h(rng, -10, 20), (4 + rng.below(30)).to_string(), (4 + rng.below(30)).to_string());
+        if rng.chance(1, 3) {
+            sib.push(X::node("g", &[("id", "t"), ("clip-path", "url(#cp)")], vec![X::leaf("rect", &[("xy", &format!("{tx} {ty}")), ("wh", &format!("{tw} {th}"))])]));
+        } else {
+            sib.push(X::leaf("rect", &[("id", "t"), ("xy", &format!("{tx} {ty}")), ("wh", &format!("{tw} {th}")), ("clip-path", "url(#cp)")]));
+        }
+        let spec = |rng: &mut Rng, id: &str| -> String { format!("#{id}{}", rng.pick(&["|h 5", "|v 2", "@br 1 1", "|H", "@c"])) };
+        sib.push(X::leaf("rect", &[("id", "r"), ("xy", &spec(rng, "t")), ("wh", "6 4")]));
+        if rng.chance(1, 2) { sib.push(X::leaf("circle", &[("id", "q"), ("cxy", &format!("#r@{}", rng.pick(&["c", "tl", "b"]))), ("r", "2")])); }
+        if rng.chance(1, 2) { sib.push(X::leaf("rect", &[("id", "w"), ("xy", "40 40"), ("wh", "#t")])); }
+        let k = sib.len();
+        let mut order: Vec<usize> = (0..k).collect();
+        shuffle(rng, &mut order);
+        let doc: Vec<X> = order.iter().map(|&i| sib[i].clone()).collect();
+        let xml = doc_xml(&doc);
+        corr.case(&xml, true, || json!({"document": xml}));
+        let imp = run_impl(&xml, lim);
+        let mdl = run_model(drv, &doc, lim)?;
+        corr.tally(&format!("impl={}", imp.status));
+        if mdl.outside { corr.skipped += 1; } else {
+            match agree(&imp, &mdl) {
+                Ok(()) => corr.exact += 1,
+                Err(what) => rep.violation(Violation { kind: "correspondence", stream: corr.name.clone(), signature: "clip-order".into(), what, replay: json!({"input": xml}), confirmed_on_impl: false }),
+            }
+        }
+        orc.case(&xml, true, || json!({"siblings": sib.iter().map(|x| { let mut s = String::new(); x.xml(&mut s); s }).collect::<Vec<_>>()}));
+        let mut base: Option<(String, BTreeMap<String, String>)> = None;
+        let mut bad = None;
+        for o in all_perms(k) {
+            let d: Vec<X> = o.iter().map(|&i| sib[i].clone()).collect();
+            let x = doc_xml(&d);
+            let r = run_impl(&x, lim);
+            // an empty intersection leaves the clipped element without a box: then every order must fail
+            let mut m = by_id(&r.events);
+            m.insert("(status)".into(), if r.status == "ok" { "ok".into() } else { "error".into() });
+            match &base {
+                None => base = Some((x, m)),
+                Some((x0, m0)) => if *m0 != m {
+                    let id = m0.keys().find(|k| m0.get(*k) != m.get(*k)).cloned().unwrap_or_default();
+                    bad = Some((format!("#{id} differs between two orders of the same siblings: {:?} vs {:?}", m0.get(&id), m.get(&id)), json!({"input": x, "input_other_order": x0})));
+                    break;
+                }
+            }
+        }
+        match bad {
+            None => orc.exact += 1,
+            Some((what, replay)) => rep.violation(Violation { kind: "oracle", stream: orc.name.clone(), signature: "C10:order-dependent".into(), what, replay, confirmed_on_impl: true }),
+        }
+    }
+    rep.streams.push(corr);
+    rep.streams.push(orc);
+    Ok(())
+}
+
 /// corpus: {"input", "input_other_order"?, "expect_by_id"?, "unsatisfiable"?, "signature"}
 fn corpus(rep: &mut Report) {
     let mut st = Stream::new("corpus", "oracle", "files of /verif/corpus/C10 (past failures): geometry equals the recorded boxes / both orders agree / unsatisfiable input fails");
@@ -568,5 +641,6 @@ pub fn run(rep: &mut Report, tier: &str, seed: u64) -> Result<(), String> {
     corpus(rep);
     stream_dags(rep, &mut drv, &mut rng.fork(), n)?;
     stream_unsat(rep, &mut drv, &mut rng.fork(), u)?;
+    stream_clip(rep, &mut drv, &mut rng.fork(), u / 2)?;
     Ok(())
 }
